@@ -124,6 +124,38 @@ def model_query(items):
     return res
 
 
+def alg_query(items):
+    """items: (formula, sig) -> the sample list of the mirror of the dense offline list algorithms (Rtamt/Dense/Alg.lean):
+    ("ok", [(Fraction | inf, float)]) | ("err", kind) | ("undef",)."""
+    lines = ["densealg | %d/%d | %s | %s" % (SCALE.numerator, SCALE.denominator, F.to_proto(f), proto_sigs(sig)) for f, sig in items]
+    res = []
+    for o, ln in zip(common.driver_run(lines), lines):
+        if o.startswith("undef"):
+            res.append(("undef",))
+        elif o.startswith("err "):
+            res.append(("err", o[4:].strip()))
+        elif o.startswith("ok"):
+            out = []
+            for it in o[2:].split():
+                t, v = it.split("@")
+                out.append((float("inf") if t == "inf" else Fraction(t), common.b2f(v)))
+            res.append(("ok", out))
+        else:
+            raise common.HarnessError("dense mirror: " + o + " on: " + ln)
+    return res
+
+
+def same_samples(impl_res, model):
+    """The list `evaluate()` returned and the mirror's list: same time stamps, same values (as doubles; -0.0 = 0.0)."""
+    if len(impl_res) != len(model):
+        return False
+    for p, (t, v) in zip(impl_res, model):
+        pt = float("inf") if p[0] == float("inf") else Fraction(p[0])
+        if pt != t or not common.num_eq(p[1], v):
+            return False
+    return True
+
+
 def step_value(samples, t):
     """Value of the sample list read as a right-continuous step function; None before the first sample."""
     cur = None
@@ -322,8 +354,40 @@ def compare_offline_batch(ctx, cases):
             if any(v not in (common.INF, -common.INF) for v in vs) or len(set(vs)) > 1:
                 ctx.nontrivial.add((text, tuple((v, tuple(c["sig"][v])) for v in sorted(c["sig"]))))
         results[k] = None
+    # the mirror of the list algorithms (M-alg): the very list, sample by sample
+    todo = [k for k, (c, text, out, rep) in enumerate(work) if results.get(k) is None and out[0] == "ok"]
+    for k, m in zip(todo, alg_query([(work[k][0]["f"], work[k][0]["sig"]) for k in todo])):
+        c, text, out, rep = work[k]
+        ctx.count("alg:" + m[0])
+        if m[0] == "undef":
+            continue
+        if m[0] != "ok" or not same_samples(out[1], m[1]):
+            ctx.diffs.append(Violation("the mirror of the dense offline list algorithms (Dense/Alg.lean) gives %r, evaluate() returned %r: %s"
+                                       % (m[1] if m[0] == "ok" else m, out[1], text),
+                                       dict(rep, mirror=[[str(t), v] for t, v in m[1]] if m[0] == "ok" else list(m)),
+                                       failing_input=False, stream="off-c/mirror"))
     for k, (c, _, _, _) in enumerate(work):
         yield c, results.get(k)
+
+
+def compare_mirror_only(ctx, cases):
+    """Cases inside the region of a known finding: the implementation is not compared with `rhoD` there, but its list must
+    still be the list the mirror of the list algorithms computes (the mirror follows the code, defects included)."""
+    work = []
+    for c in cases:
+        text, out = eval_offline(c["f"], c["sig"])
+        work.append((c, text, out))
+    for (c, text, out), m in zip(work, alg_query([(c["f"], c["sig"]) for c, _, _ in work])):
+        ctx.count("alg-known-region:" + m[0])
+        if m[0] == "undef":
+            continue
+        rep = {"monitor": "offc", "spec": text, "formula": F.to_proto(c["f"]), "signals": sig_rep(c["sig"]), "impl": out,
+               "mirror": [[str(t), v] for t, v in m[1]] if m[0] == "ok" else list(m)}
+        same = (out[0] == "ok" and m[0] == "ok" and same_samples(out[1], m[1])) or (out[0] != "ok" and m[0] == "err")
+        if not same:
+            ctx.diffs.append(Violation("the mirror of the dense offline list algorithms (Dense/Alg.lean) gives %r, evaluate() %r: %s"
+                                       % (m[1] if m[0] == "ok" else m, out[1:] if out[0] != "ok" else out[1], text), rep,
+                                       failing_input=False, stream="off-c/mirror"))
 
 
 # ======================================================================================
